@@ -373,6 +373,9 @@ def build_kwargs(al, built):
             kw[a] = match_any(py_value(ap[1], built))
         elif ap[0] == "all":
             kw[a] = match_all(py_value(ap[1], built))
+        elif ap[0] == "var":
+            from krrood.entity_query_language.entity import let
+            kw[a] = let(CLASSES[ap[1]], py_value(ap[2], built))
         else:
             ctor = match_any if ap[3] == "any" else match
             t = CLASSES[ap[1]] if ap[1] else None
@@ -415,6 +418,8 @@ def py_spec(d: dict, built) -> List[int]:
             return any(mem(x, elems(ap[1])) for x in elems(v))
         if ap[0] == "all":
             return all(mem(x, elems(ap[1])) for x in elems(v)) and all(mem(y, elems(v)) for y in elems(ap[1]))
+        if ap[0] == "var":      # a let-variable as value: the attribute equals / has a member equal to SOME value of its domain
+            return any(mem(x, ap[2]) for x in elems(v))
         one = lambda o: (ap[1] is None or isinstance(o, CLASSES[ap[1]])) and ok_alist(ap[2], o)
         return any(one(o) for o in v) if isinstance(v, list) else one(v)
 
@@ -422,6 +427,8 @@ def py_spec(d: dict, built) -> List[int]:
         return all(ok_attr(conv(ap), getattr(o, a)) for a, ap in al)
 
     def conv(ap):
+        if ap[0] == "var":
+            return [ap[0], ap[1], py_value(ap[2], built)]
         return [ap[0], py_value(ap[1], built)] if ap[0] in ("lit", "any", "all") else ap
 
     T = CLASSES[d["T"]]
@@ -518,6 +525,39 @@ def snippet(d: dict) -> str:
             "print('returned', out, 'expected', c11.py_spec(d, built))") % json.dumps(d)
 
 
+def has_var(al) -> bool:
+    return any(ap[0] == "var" or (ap[0] == "match" and has_var(ap[2])) for _, ap in al)
+
+
+def gen_letvalue_cases(tier: str, seed: int) -> List[dict]:
+    """keywords whose value is a let-variable over an explicit domain (match(variable) forms): not modelled in Coq,
+    compared implementation vs the direct Python predicate only"""
+    ft = field_table()
+    rng = core.Rng(seed).fork(1111)
+    out = []
+    for i in range(120 if tier == "quick" else 600):
+        r = rng.fork(i)
+        objs = gen_world(r)
+        T = r.choice(["Rack", "Rack", "Unit"])
+
+        def var_kw(cname):
+            a = r.choice(fields_of(cname))
+            it, end = ft[(cname, a)]
+            lst = gen_list(r, objs, end, 1, 3)
+            return [a, ["var", end, lst]]
+        if r.chance(0.5):
+            pat = [var_kw(T)]
+        else:
+            cands = [a for a in fields_of(T) if ft[(T, a)][1] not in ("int", "str")]
+            a = r.choice(cands)
+            pat = [[a, ["match", ft[(T, a)][1], [var_kw(ft[(T, a)][1])], "match"]]]
+        if r.chance(0.4):
+            pat += [kw for kw in gen_alist(r, objs, T, 1, False) if kw[0] != pat[0][0]][:1]
+        out.append({"objs": objs, "T": T, "pat": pat, "dom": list(range(len(objs)))})
+    return out
+
+
+TYPEERROR = [-1, sum(map(ord, "TypeError"))]
 KF_CLASSES = ("K_emptynested", "K_unrelated")   # K_emptylist (C11-b) and K_existsfirst (C11-c) are repaired: counted, never tolerated
 UNSPEC = ("U_in", "U_all_scalar")
 
@@ -531,6 +571,10 @@ def run(tier: str, seed: int, replay=None) -> int:
         "order of resolve / Match._resolve / match_any / match_all is compared with the expected text)",
         "hand-written model Eql/Match.v of the conditions built from a pattern and of their evaluation (Attribute, Flatten, Comparator, "
         "HasType, Exists, AND, Entity), tied by differential execution through an(entity_matching(...)(...)).evaluate()",
+        "source pins pins/c11.json (41 methods the hand-written model mirrors and t_match.py does not regenerate: Match._update_fields / "
+        "expression / _update_selected_variables, AttributeAssignment.attr / assigned_variable / is_iterable_value, DomainMapping, Attribute, "
+        "Flatten, Comparator, Exists, AND, QueryObjectDescriptor, Variable, Literal, entity.py constructors, HasType.__call__, is_iterable, "
+        "make_set, HashedValue.__eq__): an edit of any of them reopens the correspondence obligation",
         "harness/c11.py: harness classes, world builder, equality classes computed with the objects' own ==, field table read from the "
         "real Attribute nodes (_is_iterable_, _type_), pattern -> kwargs builder, outcome = set of identities",
     ]
@@ -546,6 +590,8 @@ def run(tier: str, seed: int, replay=None) -> int:
     model_ok = core.standard_proof_steps(
         rep, PROP, ["Props/C11.vo"],
         regen=[("Gen/Match.v", lambda: t_match.translate(str(core.REPO)), core.COQ / "Gen" / "Match.v")])
+    from translator import pins
+    pins.oblige(rep, str(core.REPO), "c11", "the match evaluation model (Eql/Match.v)")
     findings = core.load_findings(PROP)
     open_classes = {f.cls for f in findings if f.kind == "open"}
 
@@ -558,7 +604,30 @@ def run(tier: str, seed: int, replay=None) -> int:
             for p in sorted(cdir.glob("*.json")):
                 corpus.append((p.name, json.loads(p.read_text())))
         descrs = [c["case"] for _, c in corpus] + gen_cases(tier, seed)
+    # keywords whose value is a let-variable: side stream (implementation vs direct Python predicate, no Coq term)
+    var_descrs = [d for d in descrs if has_var(d["pat"])] + ([] if replay else gen_letvalue_cases(tier, seed))
+    corpus = [(n, c) for n, c in corpus if not has_var(c["case"]["pat"])]
+    descrs = [d for d in descrs if not has_var(d["pat"])]
     ncorpus = len(corpus)
+    lv = {"cases": 0, "agree": 0, "TypeError (known finding C11-f)": 0}
+    lv_bad = []
+    for d in var_descrs:
+        out, _keys, built = run_impl(d)
+        exp = py_spec(d, built)
+        iset = out[0] if out[0] != -1 else out
+        lv["cases"] += 1
+        rep.count(json.dumps(d, sort_keys=True), bool(exp))
+        if iset == exp:
+            lv["agree"] += 1
+        elif iset == TYPEERROR and "K_letvalue" in open_classes:
+            lv["TypeError (known finding C11-f)"] += 1
+        else:
+            lv_bad.append((d, iset, exp))
+    rep.extra["let_variable_values"] = lv
+    for d, iset, exp in lv_bad[:3]:
+        rep.violation({"kind": "counterexample", "case": d, "impl": iset, "spec": exp, "python": snippet(d),
+                       "explanation": "a keyword whose value is a let-variable over an explicit domain: expected = elements whose attribute equals / "
+                                      "has a member equal to some value of the variable's domain (direct Python predicate; not modelled in Coq)"})
 
     impls, terms, builts = [], [], []
     for d in descrs:
@@ -629,6 +698,18 @@ def run(tier: str, seed: int, replay=None) -> int:
         by_name = {n: k for k, (n, _) in enumerate(corpus)}
         for f in findings:
             name = f.witness.split("/")[-1]
+            if f.cls == "K_letvalue":
+                d = json.loads((core.VERIF / f.witness).read_text())["case"]
+                out, _k, built = run_impl(d)
+                iset = out[0] if out[0] != -1 else out
+                if iset == TYPEERROR and iset != py_spec(d, built):
+                    rep.known(f)
+                elif iset == py_spec(d, built):
+                    rep.note(f"known finding {f.fid} no longer reproduces on its witness (repaired?)")
+                else:
+                    rep.violation({"kind": "counterexample", "finding": f.fid, "case": d, "impl": iset, "spec": py_spec(d, built),
+                                   "python": snippet(d), "explanation": "the witness of C11-f fails differently from what is recorded"})
+                continue
             if name not in by_name:
                 rep.oblige(f"witness:{f.fid}", False, f"witness {f.witness} missing")
                 continue
